@@ -510,13 +510,33 @@ class PiecewiseConstantCoalescentGrid(AbstractCoalescentDistribution):
 
     def sufficient_statistics(self, node_heights: torch.Tensor):
         node_mask_sorted, lchoose2, durations = self._sorted_terms(node_heights)
-        groups = torch.tensor_split(
-            lchoose2 * durations, torch.where(node_mask_sorted == 0)[0]
-        )
+        terms = lchoose2 * durations
+        if node_mask_sorted.dim() > 1:
+            # one tree per sample: group the intervals of each sample separately
+            batch_shape = node_mask_sorted.shape[:-1]
+            statistics_counts = [
+                self._group_by_grid(mask, term)
+                for mask, term in zip(
+                    node_mask_sorted.reshape(-1, node_mask_sorted.shape[-1]),
+                    terms.reshape(-1, terms.shape[-1]),
+                )
+            ]
+            sufficient_statistics = torch.stack(
+                [statistics for statistics, _ in statistics_counts]
+            )
+            coalescent_counts = torch.stack([counts for _, counts in statistics_counts])
+            return (
+                sufficient_statistics.reshape(batch_shape + (-1,)),
+                coalescent_counts.reshape(batch_shape + (-1,)),
+            )
+        return self._group_by_grid(node_mask_sorted, terms)
+
+    @staticmethod
+    def _group_by_grid(node_mask_sorted: torch.Tensor, terms: torch.Tensor):
+        grid_indices = torch.where(node_mask_sorted == 0)[0]
+        groups = torch.tensor_split(terms, grid_indices)
         sufficient_statistics = torch.tensor(list(map(torch.sum, groups)))
-        groups = torch.tensor_split(
-            node_mask_sorted == -1, torch.where(node_mask_sorted == 0)[0]
-        )
+        groups = torch.tensor_split(node_mask_sorted == -1, grid_indices)
         coalescent_counts = torch.tensor(list(map(torch.sum, groups)))
         return sufficient_statistics, coalescent_counts
 
